@@ -1,6 +1,6 @@
 (* C13 — proofs about Model/Sender.v against Spec/SenderSpec.v. *)
 From Verif Require Import Base.Prelude Gen.GenConsts Model.Sender Spec.SenderSpec.
-From Coq Require Import Sorting.Sorted.
+From Coq Require Import Sorting.Sorted Sorting.Permutation.
 
 Lemma cap_pos : (0 < notify_cache_size)%nat.
 Proof. unfold notify_cache_size. lia. Qed.
@@ -218,13 +218,35 @@ Proof.
   intros H Hb. simpl. split; [lia|]. eapply desc_lt_weaken; [|exact H]. exact Hb.
 Qed.
 
+Lemma burst_ctr_ge ks : forall c, (c <= burst_ctr c ks)%N.
+Proof. induction ks as [|k ks IH]; intros c; simpl; [lia|]. specialize (IH (N.succ c)). lia. Qed.
+
+(* the monitor accepts the counters of a burst: all new, all above the base *)
+Lemma burst_ok ks : forall c base seen,
+  (base <= c)%N -> (forall x, In x seen -> (x <= c)%N) ->
+  exists sn, mon_burst base seen c ks (burst_obs c ks) = (sn, burst_ctr c ks, []) /\
+             (forall x, In x sn -> (x <= burst_ctr c ks)%N).
+Proof.
+  induction ks as [|k ks IH]; intros c base seen Hb Hs; simpl.
+  - exists seen. split; [reflexivity | exact Hs].
+  - destruct (memN (N.succ c) seen) eqn:E.
+    { apply memN_In in E. specialize (Hs _ E). lia. }
+    destruct (N.ltb_spec base (N.succ c)) as [_|Hge]; [|lia].
+    rewrite !N.eqb_refl. simpl.
+    replace (N.max c (N.succ c)) with (N.succ c) by lia.
+    destruct (IH (N.succ c) base (N.succ c :: seen)) as [sn [Hm Hsn]].
+    + lia.
+    + intros x [<-|Hx]; [lia | specialize (Hs _ Hx); lia].
+    + rewrite Hm. exists sn. split; [reflexivity | exact Hsn].
+Qed.
+
 Lemma step_inv s m sc o :
   Inv s m sc ->
   let '(s1, out) := step s o in
   let '(m1, v) := mon m o out in
   excused v (excuses (scope sc o)) = true /\ Inv s1 m1 (scope sc o).
 Proof.
-  intros I. destruct o as [h|[r|]|p|k|c]; simpl.
+  intros I. destruct o as [h|[r|]|p|k|c|ks]; simpl.
   - (* Request *)
     destruct (find_hash h (reqs s)) as [c|] eqn:E; simpl.
     + apply find_hash_In in E. apply (inv_reqs _ _ _ I) in E. apply mem_pair_In in E.
@@ -279,6 +301,14 @@ Proof.
       destruct (assoc_N c (firstn notify_cache_size (m_notifs m))) as [q|] eqn:Eq; [|reflexivity].
       unfold excuses. simpl. destruct (oos sc) eqn:Eo; [reflexivity|]. exfalso.
       apply assoc_N_In in Eq. apply (inv_recent _ _ _ I Eo) in Eq. exact (Hr q Eq).
+  - (* Burst *)
+    destruct (burst_ok ks (ctr s) (m_last m) (m_seen m)) as [sn [Hm Hsn]].
+    + rewrite (inv_last _ _ _ I). lia.
+    + exact (inv_seen _ _ _ I).
+    + rewrite (inv_last _ _ _ I) in *. rewrite Hm. simpl. split; [reflexivity|].
+      pose proof (burst_ctr_ge ks (ctr s)) as Hge.
+      destruct I as [I1 I2 I3 I4 I5 I6 I7 I8]. constructor; simpl; auto.
+      eapply desc_lt_weaken; [|exact I4]. lia.
 Qed.
 
 Theorem run_accepted_from s m sc ops :
@@ -305,18 +335,46 @@ Fixpoint written (tr : list (op * list obs)) : list N :=
   | (_, out) :: r => written_of out ++ written r
   end.
 
+Lemma burst_written ks : forall c,
+  StronglySorted N.lt (written_of (burst_obs c ks)) /\
+  Forall (fun x => (c < x <= burst_ctr c ks)%N) (written_of (burst_obs c ks)).
+Proof.
+  induction ks as [|k ks IH]; intros c; simpl; [split; constructor|].
+  destruct (IH (N.succ c)) as [Hs Hf]. pose proof (burst_ctr_ge ks (N.succ c)) as Hge. split.
+  - constructor; [exact Hs|]. eapply Forall_impl; [|exact Hf]. simpl. intros a Ha. lia.
+  - constructor; [lia|]. eapply Forall_impl; [|exact Hf]. simpl. intros a Ha. lia.
+Qed.
+
+(* the counters written by one step are strictly increasing, above the counter before
+   the step and at most the counter after it *)
 Lemma step_written s o :
   let '(s1, out) := step s o in
-  (written_of out = [] /\ ctr s1 = ctr s) \/
-  (written_of out = [N.succ (ctr s)] /\ ctr s1 = N.succ (ctr s)).
+  StronglySorted N.lt (written_of out) /\
+  Forall (fun x => (ctr s < x <= ctr s1)%N) (written_of out) /\ (ctr s <= ctr s1)%N.
 Proof.
-  destruct o as [h|[r|]|p|k|c]; simpl.
-  - destruct (find_hash h (reqs s)); simpl; [left | right]; split; reflexivity.
-  - left; split; reflexivity.
-  - left; split; reflexivity.
-  - destruct (lru_put (N.succ (ctr s)) p (lru s) (space s)). simpl. right; split; reflexivity.
-  - right; split; reflexivity.
-  - destruct (lru_get c (lru s)) as [r l]. simpl. left. split; [destruct r|]; reflexivity.
+  assert (H1 : forall c : N, StronglySorted N.lt [c]) by (intros c; constructor; constructor).
+  destruct o as [h|[r|]|p|k|c|ks]; simpl.
+  - destruct (find_hash h (reqs s)); simpl.
+    + repeat split; try constructor; lia.
+    + repeat split; [apply H1 | constructor; [lia | constructor] | lia].
+  - repeat split; try constructor; lia.
+  - repeat split; try constructor; lia.
+  - destruct (lru_put (N.succ (ctr s)) p (lru s) (space s)). simpl.
+    repeat split; [apply H1 | constructor; [lia | constructor] | lia].
+  - repeat split; [apply H1 | constructor; [lia | constructor] | lia].
+  - destruct (lru_get c (lru s)) as [r l]. simpl.
+    destruct r; simpl; repeat split; try constructor; lia.
+  - destruct (burst_written ks (ctr s)) as [Hs Hf]. repeat split; [exact Hs | exact Hf | apply burst_ctr_ge].
+Qed.
+
+Lemma sorted_app (l1 l2 : list N) b :
+  StronglySorted N.lt l1 -> StronglySorted N.lt l2 ->
+  Forall (fun x => (x <= b)%N) l1 -> Forall (fun x => (b < x)%N) l2 ->
+  StronglySorted N.lt (l1 ++ l2).
+Proof.
+  intros H1 H2 F1 F2. induction H1 as [|a l Hs IH Hf]; simpl; [exact H2|].
+  inversion F1 as [|? ? Ha Hl]; subst. constructor; [apply IH; exact Hl|].
+  apply Forall_app. split; [exact Hf|]. eapply Forall_impl; [|exact F2]. simpl. intros x Hx. lia.
 Qed.
 
 Lemma written_sorted_from ops : forall s,
@@ -327,11 +385,12 @@ Proof.
   pose proof (step_written s o) as Hw.
   destruct (step s o) as [s1 out]. specialize (IH s1).
   destruct (run s1 ops) as [s2 tr]. simpl in *. destruct IH as [IHs IHf].
-  destruct Hw as [[-> Hc]|[-> Hc]]; simpl; rewrite Hc in IHf.
-  - split; assumption.
-  - split.
-    + constructor; assumption.
-    + constructor; [lia|]. eapply Forall_impl; [|exact IHf]. simpl. intros a Ha. lia.
+  destruct Hw as [Hs [Hf Hc]]. split.
+  - apply (sorted_app _ _ (ctr s1)); [exact Hs | exact IHs | | exact IHf].
+    eapply Forall_impl; [|exact Hf]. simpl. intros a Ha. lia.
+  - apply Forall_app. split.
+    + eapply Forall_impl; [|exact Hf]. simpl. intros a Ha. lia.
+    + eapply Forall_impl; [|exact IHf]. simpl. intros a Ha. lia.
 Qed.
 
 Theorem written_increasing ops : StronglySorted N.lt (written (snd (run init ops))).
@@ -385,7 +444,7 @@ Lemma step_bounded s o :
   (length (reqs s) <= S request_cache_limit)%nat ->
   (length (reqs (fst (step s o))) <= S request_cache_limit)%nat.
 Proof.
-  intros H. destruct o as [h|[r|]|p|k|c]; simpl; try exact H.
+  intros H. destruct o as [h|[r|]|p|k|c|ks]; simpl; try exact H.
   - destruct (find_hash h (reqs s)); simpl; [exact H | apply add_req_length; exact H].
   - pose proof (length_remove_N_le r (reqs s)). lia.
   - destruct (lru_put (N.succ (ctr s)) p (lru s) (space s)). simpl. exact H.
@@ -402,3 +461,37 @@ Proof.
   apply G. simpl. lia.
 Qed.
 
+
+(* ---------- overlapping calls: a burst is any interleaving of its calls ---------- *)
+(* Each call of a burst takes its counter in one atomic step; an interleaving of the calls is
+   an order of these steps, i.e. a permutation of the kinds executed one after the other. *)
+Lemma run_others l : forall s,
+  written (snd (run s (map Other l))) = written_of (burst_obs (ctr s) l) /\
+  ctr (fst (run s (map Other l))) = burst_ctr (ctr s) l /\
+  reqs (fst (run s (map Other l))) = reqs s /\ lru (fst (run s (map Other l))) = lru s /\
+  space (fst (run s (map Other l))) = space s.
+Proof.
+  induction l as [|k l IH]; intros s; simpl; [repeat split; reflexivity|].
+  specialize (IH {| ctr := N.succ (ctr s); reqs := reqs s; lru := lru s; space := space s |}).
+  destruct (run {| ctr := N.succ (ctr s); reqs := reqs s; lru := lru s; space := space s |} (map Other l)) as [s2 tr].
+  simpl in *. destruct IH as [H1 [H2 [H3 [H4 H5]]]]. rewrite H1. repeat split; assumption.
+Qed.
+
+Lemma burst_len ks : forall ks' c, length ks = length ks' ->
+  written_of (burst_obs c ks) = written_of (burst_obs c ks') /\ burst_ctr c ks = burst_ctr c ks'.
+Proof.
+  induction ks as [|k ks IH]; intros [|k' ks'] c H; simpl in *; try discriminate; [split; reflexivity|].
+  injection H as H. destruct (IH ks' (N.succ c) H) as [H1 H2]. rewrite H1, H2. split; reflexivity.
+Qed.
+
+Theorem burst_any_interleaving s ks ks' :
+  Permutation ks ks' ->
+  written_of (snd (step s (Burst ks))) = written (snd (run s (map Other ks'))) /\
+  fst (step s (Burst ks)) = fst (run s (map Other ks')).
+Proof.
+  intros P. apply Permutation_length in P.
+  destruct (run_others ks' s) as [H1 [H2 [H3 [H4 H5]]]].
+  destruct (burst_len ks ks' (ctr s) P) as [L1 L2]. simpl. split.
+  - rewrite H1. exact L1.
+  - destruct (fst (run s (map Other ks'))) as [c r l sp]. simpl in *. subst. rewrite L2. reflexivity.
+Qed.
